@@ -47,6 +47,66 @@ CHECKS = {
         ref="5 C13", technique="Coq theorems by nested induction on documents (custom induction principle, sorted-insert lemmas); in-Coq differential check on parsed JSON text",
         note="Trusted: Coq kernel + vm_compute, model Json.v, harness, emitter; serde_json's parser (literal classification is specified, tied by correspondence; "
              "float values of fractional/huge literals are an oracle from serde_json): partial for float literal values. No axioms."),
+    "C01": dict(
+        text="Proof: a linear type discipline on call trees (Lin: every live error value is consumed exactly once or returned) with a soundness theorem for every run, "
+             "and a proof by induction on the target type that the whole interpreter (std scalars and containers, serde_json::Value, derived structs/enums with every attribute, "
+             "field-level error types, from/try_from/validate) obeys it. Theorems: Ok => not one call to the error type; Err e => e plus the consumed error values is a permutation of "
+             "the created ones (none dropped, none used twice), for every payload, script and state. Correspondence: C01 projection (result class, returned id, wiring of all "
+             "error-creating calls) + the same linearity predicate evaluated on the implementation's traces.",
+        ref="5 C01", technique="Coq: linear resource invariant on free-monad call trees + soundness + induction on types; in-Coq differential check and monitor",
+        note="Trusted: Coq kernel + vm_compute, model Deser.v/Derive.v (tied by correspondence on each run's inputs), harness (Rec error type, OV source), emitter. "
+             "No axioms. Clause 'as long as the error type keeps what it is handed' = the error type is the free recording algebra."),
+    "C03": dict(
+        text="Proof: (c03_causal) for every call tree hence every deser t v l: two scripts agreeing on the answers before call k give runs that are identical or agree up to and "
+             "including call k; (c03_failfast_first) the first call made to the error type is the same under every script, so an always-stop error type is handed exactly the first "
+             "report of the keep-going run. Monitor on the implementation: prefix equality with the keep-going run for every switch position k, and after the stop only hand-overs of the "
+             "built error (merge(_, previous result, _)) up to the returned error. The 'only hand-overs after the stop' clause is decided by the monitor + correspondence, not yet by a theorem.",
+        ref="5 C03", technique="Coq: generic causality theorem on call trees + answer-insensitivity invariant; relational in-Coq monitor over (keep-going, scripted) run pairs",
+        note="Trusted: as C01. Partial: the stop-next / pass-up clause has no theorem yet (monitor + full-trace correspondence only). No axioms."),
+    "C06": dict(
+        text="Proof: arity theorems (array, 2- and 3-tuples: exactly one BadSequenceLen with the whole sequence and the expected length, any script/state), Option (None iff null, "
+             "otherwise Some of the content's result), Box transparent, Vec (an Ok result has one output per payload element, in order, each the Ok result of its own element at its own "
+             "index), maps (an unparsable key makes the call fail whatever the error type answers). Sets/maps value semantics and CS lists are decided by correspondence + the reference "
+             "interpreter monitor.",
+        ref="5 C06", technique="Coq theorems by unfolding/induction on the element list + Leaves invariant; in-Coq differential check + Spec.v monitor",
+        note="Trusted: as C01. Partial: set/map contents and CS have no dedicated theorem (correspondence + spec monitor). No axioms."),
+    "C09": dict(
+        text="Proof: (c09_ignored) without deny_unknown_fields the run on a payload equals, for every script and state, result and calls, the run on the payload with all unknown-key "
+             "members removed; (c09_denied_step) with it, a member whose key matches no field is reported as UnknownKey with the accepted-key list at the container's location and the loop "
+             "continues. Correspondence + Spec.v monitor + pair monitor (extra keys change nothing) on generated derive inputs.",
+        ref="5 C09", technique="Coq theorem by induction on the member list (run-level equality); relational in-Coq monitor on (payload, payload+extra keys) pairs",
+        note="Trusted: as C01; the accepted list = effective keys in declaration order relies on Derive.v (C07). No axioms."),
+    "C10": dict(
+        text="Proof: nine theorems characterising run_unit_enum and run_tagged completely: exact case-sensitive first match, UnknownValue with all names in order, kind error [String] at "
+             "the enum's / the tag's own location, MissingField(tag) at the enum's location, 'Incorrect tag value' at the enum's location, and on a match the fields are read by run_fields of "
+             "that variant alone on the remaining entries. Correspondence + Spec.v monitor on every variant name, case variations, near-misses, non-string and missing tags.",
+        ref="5 C10", technique="Coq theorems by unfolding + list lemmas; in-Coq differential check + Spec.v monitor",
+        note="Trusted: as C01; effective variant names come from Derive.v (key_name_for_ident), tied by correspondence. No axioms."),
+    "C11": dict(
+        text="Proof: exact run equations for container-level from / try_from and for validate (function invoked once, right after and only after its input deserialized, with that value; "
+             "failure handed to the error type once at the container's location; result flows into the output). Field-level from/try_from/map and field-level error types are decided by "
+             "correspondence, the Spec.v monitor on the sequence of user-function invocations (mon_c11) and the linearity monitor.",
+        ref="5 C11", technique="Coq run equations; in-Coq differential check with logging user functions + Spec.v monitor of the invocation sequence",
+        note="Trusted: as C01 + the harness's user-function library and its Gallina twin (ufail). Partial: field-level stages have no dedicated theorem. No axioms."),
+    "C12": dict(
+        text="Proof: every panic site of the code is an explicit RPanic outcome of the model (tuple slot unwraps, FieldState::unwrap, Vec->[T;N] conversion); c12_no_panic shows none is "
+             "reachable for any target type, payload, script and state (invariants: empty accumulator => all slots filled / no FErr / no FMissing state / N outputs). Correspondence of the "
+             "Ok/Err/panic class under catch_unwind incl. depth-128 payloads.",
+        ref="5 C12", technique="Coq: Leaves invariant on call trees with loop invariants, induction on types; in-Coq differential check under catch_unwind",
+        note="Trusted: as C01. Partial: stack exhaustion is runtime behaviour outside the model (depth 128 is executed; an abort is reported). Assumes user functions and IntoValue impls return. No axioms."),
+    "C14": dict(
+        text="Proof: (c14_first_report) the message of an always-Break pass-through error type is the rendering of the first call to the error type, and that call is the same under "
+             "every script (hence the first report of the keep-going run); (c14_ok_same) an Ok run is the same run under every script. Correspondence: JsonError and QueryParamError messages "
+             "compared character by character with Messages.v (paths, expected-kinds phrase, JSON text incl. escaping, did-you-mean, lengths) on every kind at every depth; monitor adds that "
+             "the first report is true of the payload (path resolves to the quoted value).",
+        ref="5 C14", technique="Coq theorems from the answer-insensitivity invariant + C01/C12; exact-string in-Coq differential check",
+        note="Trusted: as C01 + Messages.v; float text (serde_json/Display) is an oracle: partial for floats. strsim as in C18. No axioms."),
+    "C20": dict(
+        text="Proof (thin by nature): extract fw = Extracted o iff the framework yielded a document and deserialize (JsonError) of it is Ok o; framework rejections pass through unchanged; "
+             "a deserr failure is rejected as 400 with the message; nothing else is rejected. The content is the tie: actix-web AwebJson, AwebQueryParameter (from_query and FromRequest) and "
+             "axum AxumJson driven in-process on generated requests, each compared with the framework's own extractor on an identical request followed by the model.",
+        ref="5 C20", technique="Coq case-analysis theorems over an extractor model; in-process differential check against the frameworks' own extractors",
+        note="Trusted: as C14; partial: async polling, body streaming, content-type negotiation happen inside actix/axum and are inputs (oracle), not modelled. No axioms."),
 }
 
 NOT_YET = {}
